@@ -210,7 +210,7 @@ def run(ctx):
                 why="a panic becomes IoThreadPanic and the thread's own error is returned before the close result")
         rows = P.table(ctx, fnp, ['self'])
         some = [x for x in rows if x.conds and x.conds[0][1] == 'Some(_)']
-        none = [x for x in rows if x.conds and x.conds[0][1] == 'not Some(_)']
+        none = [x for x in rows if x.conds and x.conds[0][1] == 'None']
         r.check('result', len(some) == 1 and some[0].value_str() == 'io_loop::channel_handle::Channel0Handle::close_connection(self.channel0)' and len(none) == 1 and none[0].value_str() == 'Ok(())', site,
                 built=[x.row() for x in rows])
         evs2, _ = ctx.events('<connection::Connection as std::ops::Drop>::drop')
